@@ -158,7 +158,7 @@ End D.
 Theorem f16b_spec d : f16b d = true <-> F16 d.
 Proof.
   unfold f16b, F16. destruct (root_of d) as [root|].
-  - rewrite orb_true_iff. split.
+  - split.
     + intros H. exists root. split; [reflexivity|exact H].
     + intros (r & E & H). inversion E; subst. exact H.
   - split; [discriminate|intros (r & E & _); discriminate].
